@@ -1,0 +1,11 @@
+//go:build verif
+
+package affinity
+
+// Contracts read by the verification engine in /verif (govc). Comment-only file.
+//
+//@ func GetNodeNameFromAffinity
+//@   pure
+//@   ensures affinity == nil ==> result == ""
+//@   loop 1 invariant true
+//@   loop 2 invariant true
